@@ -16,7 +16,8 @@
    (which pointer the loops of wake_one / wake_all follow, when the slot of a wait is returned, when the token is
    published, when add_awaiter / remove_awaiter touch the list).
    Pointers are Z: 0 = nullptr, n + 1 = the Node stored in deposit slot n.
-   Ghost: sst (ownership state of every slot), bad (resumptions of a coroutine that is not suspended), rlog
+   Ghost: sst (ownership state of every slot), bad (resumptions of a coroutine that is not suspended + nodes queued
+   while the word did not match the expected value), rlog
    (resumption log: coroutine, wait index, executor the continuation was handed to). *)
 From Coq Require Import ZArith List Bool Arith.
 Require Import Verif.Gen.Gen_coroutine.
@@ -33,7 +34,9 @@ Record cfg := {
   rel_succ : bool;
   cb_tok : bool;               (* ... else: on_suspend callback invoked when one is registered / is not *)
   cb_notok : bool;
-  add_when : Z -> Z -> bool;   (* add_awaiter queues the node *)
+  add_when : Z -> Z -> bool;   (* add_awaiter: the first condition on (expected_value, word) ... *)
+  add_rejects : bool;          (* ... guards `return false` (true) or the enqueue (false) *)
+  cmp_locked : bool;           (* the comparison is made after _mutex was taken (one critical section with the enqueue) *)
   unlink_linked : bool;        (* remove_awaiter unlinks a node whose prev is set / is nullptr *)
   unlink_unlinked : bool
 }.
@@ -43,15 +46,16 @@ Definition gen_cfg : cfg :=
   {| w1_adv := wake_one_advance; w1_stop_ok := wake_one_stop_when 1; w1_stop_fail := wake_one_stop_when 0;
      wa_adv := wake_all_advance; wa_saved := wake_all_saved;
      rel_fail := release_when 0; rel_succ := release_when 1; cb_tok := callback_when 1; cb_notok := callback_when 0;
-     add_when := Gen_coroutine.add_when; unlink_linked := unlink_when 1; unlink_unlinked := unlink_when 0 |}.
+     add_when := Gen_coroutine.add_when; add_rejects := negb (add_cond_rejects =? 0);
+     cmp_locked := (add_compare_under_lock =? 1); unlink_linked := unlink_when 1; unlink_unlinked := unlink_when 0 |}.
 (* the repaired code (commits 3220185, 0534791, 78434ce) and the code before the three repairs (DESIGN.md F3a-c) *)
 Definition cfg_fixed : cfg :=
   {| w1_adv := fun _ hn => hn; w1_stop_ok := true; w1_stop_fail := false; wa_adv := fun _ ns => ns; wa_saved := fun x => x;
-     rel_fail := true; rel_succ := false; cb_tok := true; cb_notok := false; add_when := Z.eqb;
+     rel_fail := true; rel_succ := false; cb_tok := true; cb_notok := false; add_when := Z.eqb; add_rejects := false; cmp_locked := true;
      unlink_linked := true; unlink_unlinked := false |}.
 Definition cfg_asis : cfg :=
   {| w1_adv := fun nn _ => nn; w1_stop_ok := true; w1_stop_fail := false; wa_adv := fun na _ => na; wa_saved := fun x => x;
-     rel_fail := false; rel_succ := false; cb_tok := true; cb_notok := false; add_when := Z.eqb;
+     rel_fail := false; rel_succ := false; cb_tok := true; cb_notok := false; add_when := Z.eqb; add_rejects := false; cmp_locked := true;
      unlink_linked := true; unlink_unlinked := false |}.
 
 Definition enc (o : option nat) : Z := match o with None => 0 | Some n => Z.of_nat n + 1 end.
@@ -102,7 +106,8 @@ Record client := { cprog : list op; copi : nat; cpcv : cpc; cres : list res }.
 
 Inductive kst :=
 | KReady (j : nat)                         (* running / runnable: wait j starts with DepositBox::emplace *)
-| KLock (j n : nat)                        (* node n initialised, add_awaiter (mutex) pending *)
+| KLock (j n : nat)                        (* node n initialised, add_awaiter pending *)
+| KEnq (j n : nat)                         (* add_awaiter compared the word outside the mutex and goes on to enqueue *)
 | KSusp (j n : nat)                        (* suspended in wait j on node n *)
 | KResumed (j : nat)                       (* continuation handed to the executor *)
 | KDone.
@@ -118,7 +123,7 @@ Record st := {
   freel : list nat;                        (* deposit box free list (LIFO) *)
   nver : Z;                                (* next fresh id version *)
   tokens : list ((nat * nat) * (nat * Z)); (* published cancellation tokens: (coroutine, wait) -> id *)
-  bad : nat;                               (* ghost *)
+  bad : nat;                               (* ghost: protocol violations, see above *)
   rlog : list (nat * nat * nat);           (* ghost *)
   clients : list client;
   coros : list coro
@@ -326,6 +331,22 @@ Definition step_client (s : st) (t : nat) (cl : client) : option st :=
   | CKFinish n => Some (set_client (release s n) t (finish_op cl (RK (Some true))))
   end.
 
+(* add_awaiter's decision on (expected_value, word) *)
+Definition enq_ok (x v : Z) : bool := if add_rejects c then negb (add_when c x v) else add_when c x v.
+
+(* the critical section of add_awaiter once the decision [ok] is made, and the rest of await_suspend.
+   Ghost: a node queued while the word does not match the expected value counts as a violation ([bad]) *)
+Definition finish_add (s : st) (i : nat) (k : coro) (j n : nat) (x : Z) (tok ok : bool) : st :=
+  let sl := slot_at s n in
+  let s1 := if ok then set_nnext (put_slot (set_lst s (n :: lst s)) n (upd_slot sl (ver sl) true SQueued))
+                                 n (enc (hd_error (lst s)))
+            else s in
+  let s2 := if (if ok then rel_succ c else rel_fail c) then release (take s1 n SFree) n
+            else if (if tok then cb_tok c else cb_notok c)
+                 then set_tokens s1 (tokens s1 ++ [((i, j), (n, nidv sl))]) else s1 in
+  let s3 := if ok && negb (x =? fv s) then set_ghost s2 (S (bad s2)) (rlog s2) else s2 in
+  if ok then set_coro s3 i (set_kst k (KSusp j n)) else set_coro s3 i (set_kst k (KReady (S j))).
+
 Definition step_coro (s : st) (i : nat) (k : coro) : option st :=
   match kstv k with
   | KReady j =>
@@ -333,23 +354,30 @@ Definition step_coro (s : st) (i : nat) (k : coro) : option st :=
     | None => Some (set_coro s i (set_kst k KDone))
     | Some _ => let '(s1, n) := emplace s i j (kexec k) in Some (set_coro s1 i (set_kst k (KLock j n)))
     end
-  | KLock j n =>                                       (* add_awaiter under the mutex, then on_suspend(id) *)
+  | KLock j n =>                                       (* add_awaiter, then the rest of await_suspend *)
+    if cmp_locked c then                               (* lock; compare; enqueue; unlock: one critical section *)
+      match mtx s with
+      | Some _ => None
+      | None =>
+        match nth_error (kprog k) j with
+        | None => None
+        | Some (x, tok) => Some (finish_add s i k j n x tok (enq_ok x (fv s)))
+        end
+      end
+    else                                               (* the word is compared before the mutex is taken *)
+      match nth_error (kprog k) j with
+      | None => None
+      | Some (x, tok) =>
+        if enq_ok x (fv s) then Some (set_coro s i (set_kst k (KEnq j n)))
+        else Some (finish_add s i k j n x tok false)
+      end
+  | KEnq j n =>                                        (* lock; enqueue unconditionally; unlock *)
     match mtx s with
     | Some _ => None
     | None =>
       match nth_error (kprog k) j with
       | None => None
-      | Some (x, tok) =>
-        let sl := slot_at s n in
-        let ok := add_when c x (fv s) in
-        let s1 := if ok then set_nnext (put_slot (set_lst s (n :: lst s)) n (upd_slot sl (ver sl) true SQueued))
-                                       n (enc (hd_error (lst s)))
-                  else s in
-        let s2 := if (if ok then rel_succ c else rel_fail c) then release (take s1 n SFree) n
-                  else if (if tok then cb_tok c else cb_notok c)
-                       then set_tokens s1 (tokens s1 ++ [((i, j), (n, nidv sl))]) else s1 in
-        if ok then Some (set_coro s2 i (set_kst k (KSusp j n)))
-        else Some (set_coro s2 i (set_kst k (KReady (S j))))
+      | Some (x, tok) => Some (finish_add s i k j n x tok true)
       end
     end
   | KSusp _ _ => None
@@ -378,7 +406,7 @@ Definition quiescent (s : st) : bool :=
 
 Definition progress (k : coro) : nat * bool :=
   match kstv k with
-  | KReady j | KLock j _ | KSusp j _ | KResumed j => (j, false)
+  | KReady j | KLock j _ | KEnq j _ | KSusp j _ | KResumed j => (j, false)
   | KDone => (length (kprog k), true)
   end.
 Definition outcome (s : st) : list (list res) * list (nat * bool) :=
